@@ -207,6 +207,25 @@ func init() {
 		}
 		k(st, res)
 	}
+	// polybig.EqualSum(b0, b1): per-dimension totals of two Summers agree. Until the
+	// summation functions are under contract the result is the ghost relation
+	// sumsEqAlloc / sumDimsEq over the two allocations (trusted; listed in the evidence).
+	libSpecs["polycry.pt/poly-go/math/big.EqualSum"] = func(e *Engine, st *State, fn *ssa.Function, args []Val, pos token.Pos, k Kont) {
+		tb := e.tb
+		var flat []*Term
+		for _, a := range args {
+			ix, ok := a.ann("").(*IfaceX)
+			if !ok || ix.Box == nil {
+				panic(e.unsupported("EqualSum on a Summer of unknown dynamic type"))
+			}
+			flat = append(flat, e.ghostArgs(st, ix.Dyn, *ix.Box)...)
+		}
+		eq := tb.App("ghost_sumsEqAlloc", SBool, flat...)
+		dims := tb.App("ghost_sumDimsEq", SBool, flat...)
+		errv := e.newError(st, "dim")
+		res := Val{Elems: []Val{scalar(tb.And(dims, eq)), Val{T: []*Term{tb.Ite(dims, tb.Int(0), errv.ifTag()), tb.Ite(dims, tb.Int(0), errv.ifVal())}}}}
+		k(st, res)
+	}
 	// ---- sync: no concurrency semantics; lock state tracked in ghost "held" ----
 	lockOp := func(acquire bool, try bool) LibFn {
 		return func(e *Engine, st *State, fn *ssa.Function, args []Val, pos token.Pos, k Kont) {
@@ -318,5 +337,35 @@ func (e *Engine) newError(st *State, hint string) Val {
 	out := Val{T: []*Term{tb.Int(errTagCache), r}}
 	// a freshly created error is its own cause
 	e.assumeQuiet(st, tb.And(tb.Eq(tb.App("errcause_tag", SInt, out.ifTag(), out.ifVal()), out.ifTag()), tb.Eq(tb.App("errcause_val", SInt, out.ifTag(), out.ifVal()), out.ifVal())))
+	return out
+}
+
+// ghostArgs flattens a value the way ghost-function arguments are flattened in specs (slice capacities dropped).
+func (e *Engine) ghostArgs(st *State, T types.Type, v Val) []*Term {
+	if px, ok := v.ann("").(*PtrX); ok {
+		// interior pointers are identified by (object, field path)
+		switch px.Kind {
+		case PField:
+			if px.Path == "" {
+				return []*Term{px.Ref}
+			}
+			return []*Term{e.tb.App("iptr_"+typeKey(px.Root)+px.Path, SInt, px.Ref)}
+		case PElem:
+			return []*Term{e.tb.App("eptr_"+typeKey(px.Root)+px.Path, SInt, px.Ref, px.Idx)}
+		}
+	}
+	v = e.flatten(st, T, v)
+	ls := Leaves(T)
+	var out []*Term
+	for i, l := range ls {
+		if l.Kind == LKSlCap {
+			continue
+		}
+		t := v.T[i]
+		if t.Sort == SBool {
+			t = e.tb.Ite(t, e.tb.Int(1), e.tb.Int(0))
+		}
+		out = append(out, t)
+	}
 	return out
 }
